@@ -192,32 +192,39 @@ Proof.
     destruct (filter (Nat.eqb y) l); [contradiction|cbn in H; lia].
 Qed.
 
-(* ---- the panic branch of mergeNodes IS reachable: 15 subtrees of depth 2 and 8 of depth 1 in the
-   root writer, then a range of 9 pages; closing the root merges the two tails into
-   16 nodes of depth 2 followed by ONE page, and collapse asks mergeNodes to merge that single node *)
+(* ---- before fix F47 the panic branch of mergeNodes WAS reachable: merging the tail of 15 subtrees
+   of depth 2 and 8 of depth 1 with the 9 pages of a range left 16 nodes of depth 2 followed by ONE
+   page, and collapse then asked mergeNodes to merge that single node *)
+From GoPdf.C16 Require Import PageTreePre.
+
+Lemma merge_pre_panics_l :
+  exists t nx, merge_pre max_degree false choose_most choose_rot_most wit_a wit_b 0 = Ok (t, nx) /\
+    depths t = repeat 2 16 ++ [0] /\
+    collapse max_degree false choose_most choose_rot_most (S (length t)) t nx = Err Panic.
+Proof.
+  destruct (merge_pre max_degree false choose_most choose_rot_most wit_a wit_b 0) as [[t nx]|e] eqn:E; [|vm_compute in E; discriminate].
+  exists t, nx. split; [reflexivity|]. vm_compute in E. injection E as <- <-. split; vm_compute; reflexivity.
+Qed.
+
+(* with the fix the same tails merge into 15+1 nodes that collapse without panic *)
+Lemma merge_fixed_ok_l :
+  exists t nx r, merge max_degree false choose_most choose_rot_most wit_a wit_b 0 = Ok (t, nx) /\
+    collapse max_degree false choose_most choose_rot_most (S (length t)) t nx = Ok r.
+Proof.
+  destruct (merge max_degree false choose_most choose_rot_most wit_a wit_b 0) as [[t nx]|e] eqn:E; [|vm_compute in E; discriminate].
+  destruct (collapse max_degree false choose_most choose_rot_most (S (length t)) t nx) as [r|e] eqn:E2.
+  - exists t, nx, r. auto.
+  - vm_compute in E. injection E as <- <-. vm_compute in E2. discriminate.
+Qed.
+
+(* the program that produces these tails *)
 Definition panic_witness : list op :=
   map (fun i => OAppend 0 i a_empty) (seq 0 (15 * 256 + 8 * 16)) ++ [ONewRange 0] ++
   map (fun i => OAppend 1 (15 * 256 + 8 * 16 + i) a_empty) (seq 0 9).
 
-Lemma panic_witness_run : run_model false panic_witness = Err Panic.
+Lemma panic_witness_runs :
+  match run_model false panic_witness with
+  | Ok out => match o_root out with Some root => Nat.eqb (length (leaves root)) (15 * 256 + 8 * 16 + 9) | None => false end
+  | Err _ => false
+  end = true.
 Proof. vm_compute. reflexivity. Qed.
-
-Lemma append_ids_app a b : append_ids (a ++ b) = append_ids a ++ append_ids b.
-Proof. induction a as [|o a IH]; [reflexivity|]. destruct o; cbn; rewrite IH; reflexivity. Qed.
-
-Lemma append_ids_map w (f : nat -> nat) a l : append_ids (map (fun i => OAppend w (f i) a) l) = map f l.
-Proof. induction l; cbn; congruence. Qed.
-
-Lemma panic_witness_ids : append_ids panic_witness = seq 0 (15 * 256 + 8 * 16 + 9).
-Proof.
-  unfold panic_witness. remember (15 * 256 + 8 * 16) as N eqn:EN. clear EN.
-  rewrite !append_ids_app, (append_ids_map 0 (fun i => i)), (append_ids_map 1 (fun i => N + i)).
-  cbn [append_ids app]. rewrite map_id, (seq_app N 9 0). f_equal. cbn [Nat.add].
-  change (seq 0 9) with [0;1;2;3;4;5;6;7;8]. cbn [map seq]. rewrite !Nat.add_succ_r, Nat.add_0_r. reflexivity.
-Qed.
-
-Lemma panic_witness_nodup : NoDup (append_ids panic_witness).
-Proof. rewrite panic_witness_ids. apply seq_NoDup. Qed.
-
-Lemma fanout_refuted_l : exists prog, NoDup (append_ids prog) /\ run_model false prog = Err Panic.
-Proof. exists panic_witness. split; [exact panic_witness_nodup|exact panic_witness_run]. Qed.
